@@ -3,7 +3,7 @@
    hash model in Model.PyHash. *)
 From Coq Require Import String ZArith List Bool Permutation.
 From Model Require Import PyBase Graph PyHash Fingerprint FingerprintCGR LinearSmiles.
-From Proofs Require Import FingerprintProofs FingerprintCGRProofs MorganNbhd LinearSmilesProofs LinearSmilesFixed.
+From Proofs Require Import FingerprintProofs FingerprintCGRProofs MorganNbhd MorganNbhdCGR LinearSmilesProofs LinearSmilesFixed.
 Import ListNotations.
 Open Scope Z_scope.
 
@@ -554,3 +554,33 @@ Theorem C17_lhs_witness_fixed_values :
      (-3062347929551842955, ["[OH-]"%string; "[O-]"%string])].
 Proof. exact witness_fixed_values. Qed.
 Print Assumptions C17_lhs_witness_fixed_values.
+
+(* ==================================================================================================== *)
+(* EXTENSION 2 for CGR containers (and for any identifier dictionary): the same characterisation of the Morgan identifier *)
+Theorem C17_morgan_iter_neighbourhood_invariant : forall (h : list Z -> Z) g g' idd idd' (f : Z -> Z),
+  wf_mol g = true -> wf_mol g' = true -> keys idd = ids g -> keys idd' = ids g' ->
+  forall a r, nbhd_iso_with idd idd' g g' f a r ->
+  ident (Nat.iter r (morgan_step h g) idd) a = ident (Nat.iter r (morgan_step h g') idd') (f a).
+Proof. exact morgan_iter_neighbourhood_invariant. Qed.
+Print Assumptions C17_morgan_iter_neighbourhood_invariant.
+
+Theorem C17_cgr_morgan_level_neighbourhood_invariant : forall (h : list Z -> Z) c c' (f : Z -> Z) a r,
+  wf_cgr c = true -> wf_cgr c' = true -> cgr_nbhd_iso c c' f a r ->
+  ident (cgr_morgan_level h c r) a = ident (cgr_morgan_level h c' r) (f a).
+Proof. exact cgr_morgan_level_neighbourhood_invariant. Qed.
+Print Assumptions C17_cgr_morgan_level_neighbourhood_invariant.
+
+Theorem C17_cgr_nbhd_iso_unfold : forall c c' f a r, cgr_nbhd_iso c c' f a r <->
+  In a (ids (cgr_skeleton c)) /\ In (f a) (ids (cgr_skeleton c')) /\
+  (forall k x, (k <= r)%nat -> within (cgr_skeleton c) a k x ->
+     ident (cgr_atom_identifiers c) x = ident (cgr_atom_identifiers c') (f x)) /\
+  (forall k x, (k < r)%nat -> within (cgr_skeleton c) a k x ->
+     Permutation (map (fun it => (f (fst it), snd it)) (nb_items (cgr_skeleton c) x)) (nb_items (cgr_skeleton c') (f x))).
+Proof. exact (fun c c' f a r => iff_refl _). Qed.
+Print Assumptions C17_cgr_nbhd_iso_unfold.
+
+Theorem C17_example_cgr_nbhd :
+  cgr_nbhd_iso ex_cgr ex_cgr2 (fun x => x) 1 1 /\
+  (forall h : list Z -> Z, ident (cgr_morgan_level h ex_cgr 1) 1 = ident (cgr_morgan_level h ex_cgr2 1) 1).
+Proof. exact example_cgr_nbhd. Qed.
+Print Assumptions C17_example_cgr_nbhd.
